@@ -341,10 +341,22 @@ func (te *TEnv) findPackage(name string) *types.Package {
 		if te.pkg.Pkg.Name() == name {
 			return te.pkg.Pkg
 		}
+		// several imports may share a package name (orbiter's keeper, the bank, CCTP and warp keepers are all
+		// "keeper" in depinject.go): an in-repo import wins, a unique match is taken, anything else is decided
+		// by the global search below (in-repo packages first)
+		var matches []*types.Package
 		for _, imp := range te.pkg.Pkg.Imports() {
 			if imp.Name() == name {
-				return imp
+				matches = append(matches, imp)
 			}
+		}
+		for _, m := range matches {
+			if inRepo(m) {
+				return m
+			}
+		}
+		if len(matches) == 1 {
+			return matches[0]
 		}
 	}
 	var cands []*types.Package
